@@ -19,12 +19,28 @@ from . import gparse
 SERVER_ADDR = ("127.0.0.1", 8000)
 
 
+class KeepAliveExpired(BaseException):
+    """What gevent.Timeout / eventlet.Timeout are on this path: not an Exception subclass, raised inside the
+    blocking read when the keep-alive period is over."""
+
+
 class StubAsyncWorker(AsyncWorker):
     """The real AsyncWorker.handle/handle_request without a hub: the only thing gevent/eventlet add
-    on this path is the keep-alive read timeout context."""
+    on this path is the keep-alive read timeout context - `Timeout(keepalive, False)`, a context manager
+    that ends the block silently when its timer fires.  The timer 'fires' when the server-side socket of an
+    'idle' client (SockProxy.idle) has nothing to read while the block is active."""
 
+    in_keepalive_wait = False
+
+    @contextlib.contextmanager
     def timeout_ctx(self):
-        return contextlib.nullcontext()
+        self.in_keepalive_wait = True
+        try:
+            yield
+        except KeepAliveExpired:
+            pass
+        finally:
+            self.in_keepalive_wait = False
 
 
 class Capture(logging.Handler):
@@ -56,6 +72,7 @@ class SockProxy:
         self.close_calls = 0
         self.use_after_close = []
         self.after_recv = None      # optional callback run once, right after the first recv returned data
+        self.idle = None            # [worker, budget]: the client stays connected and silent once its bytes are read
 
     def _chk(self, what):
         if self.close_calls:
@@ -63,6 +80,18 @@ class SockProxy:
 
     def recv(self, n, *a):
         self._chk("recv")
+        if self.idle is not None:
+            try:
+                d = self._s.recv(n, socket.MSG_DONTWAIT)
+            except BlockingIOError:
+                w = self.idle[0]
+                if getattr(w, "in_keepalive_wait", False) and self.idle[1] > 0:
+                    self.idle[1] -= 1
+                    self.idle_expiries = getattr(self, "idle_expiries", 0) + 1
+                    raise KeepAliveExpired()
+                # outside the keep-alive wait nothing bounds the read: the silent client gives up eventually
+                return b""
+            return d
         d = self._s.recv(n, *a)
         if d and self.after_recv is not None:
             cb, self.after_recv = self.after_recv, None
@@ -171,7 +200,7 @@ class Bench:
                     c.setsockopt(socket.SOL_SOCKET, socket.SO_LINGER, struct.pack("ii", 1, 0))
                     c.close()
                     time.sleep(0.002)
-            o = self._serve(s, c if ending == "halfclose" else None, peer, after)
+            o = self._serve(s, c if ending in ("halfclose", "idle") else None, peer, after, idle=ending == "idle")
         finally:
             for x in (s, c):
                 try:
@@ -180,11 +209,13 @@ class Bench:
                     pass
         return o
 
-    def _serve(self, s, c, peer, after_recv=None):
+    def _serve(self, s, c, peer, after_recv=None, idle=False):
         w = self.worker
         n_acc, n_err = len(self.acc.records), len(self.err.records)
         proxy = SockProxy(s)
         proxy.after_recv = after_recv
+        if idle:
+            proxy.idle = [w, 3]
         o = Obs()
         o.exc = None
         o.handled = 0
